@@ -59,7 +59,7 @@ C1, C2 = 'AB12', 'B2'            # the stored coordinates (concrete: openpyxl ha
 
 
 def read_cells_call(native, k1, k2):
-    def call(it, fn, s1, s2, g, v, text, cached):
+    def call(it, fn, s1, s2, g, g2, v, text, cached):
         from xlcalculator import reader, xltypes
         sheets = {}
         for s, k in ((s1, k1), (s2, k2)):
@@ -79,20 +79,20 @@ def read_cells_call(native, k1, k2):
             real = (xltypes.XLFormula, xltypes.XLCell)
             try:
                 xltypes.XLFormula, xltypes.XLCell = XLFormula, XLCell
-                res = rd.read_cells([g])
+                res = rd.read_cells([g, g2])
             finally:
                 xltypes.XLFormula, xltypes.XLCell = real
         else:
             it.call_contracts[xltypes.XLFormula] = ModelFn(lambda it_, *a, **k: XLFormula(*a, **k), 'XLFormula')
             it.call_contracts[xltypes.XLCell] = ModelFn(lambda it_, *a, **k: XLCell(*a, **k), 'XLCell')
-            res = it.call(reader.Reader.read_cells, [rd, [g]], {})
+            res = it.call(reader.Reader.read_cells, [rd, [g, g2]], {})
         return dict(res=res)
     if native:
         return lambda fn, *a: call(None, fn, *a)
     return call
 
 
-def read_cells_req(s1, s2, g, v, text, cached):
+def read_cells_req(s1, s2, g, g2, v, text, cached):
     return Not(spec.eq(s1, s2))                       # the sheet titles of one workbook are distinct
 
 
@@ -127,7 +127,7 @@ def _sheet_matches(pair, formulae, s, k, v, text, cached):
 
 
 def read_cells_ens(k1, k2):
-    def ens(s1, s2, g, v, text, cached, out):
+    def ens(s1, s2, g, g2, v, text, cached, out):
         if out.kind != 'ret':
             return False
         r = out.value['res']
@@ -136,7 +136,7 @@ def read_cells_ens(k1, k2):
         cells, formulae, ranges = r
         if ranges != {}:
             return False
-        ig1, ig2 = spec.eq(s1, g), spec.eq(s2, g)
+        ig1, ig2 = Or(spec.eq(s1, g), spec.eq(s1, g2)), Or(spec.eq(s2, g), spec.eq(s2, g2))
         e = list(cells.items())
         if len(formulae) != sum(1 for _, c in e if c.formula is not None):
             return False
@@ -157,7 +157,7 @@ for _k1 in KINDS:
     for _k2 in ('n', 'f'):
         UNITS.append(Unit(
             id=f'C11/reader.Reader.read_cells[{_k1}|{_k2}]', target='xlcalculator.reader:Reader.read_cells',
-            inputs=[('s1', STR(['Sheet1', 'My Sheet', "O'Brien"])), ('s2', STR(['Data', 'Sheet1', 'Ünï'])), ('g', STR(['Data', 'Sheet1', 'nope'])),
+            inputs=[('s1', STR(['Sheet1', 'My Sheet', "O'Brien"])), ('s2', STR(['Data', 'Sheet1', 'Ünï'])), ('g', STR(['Data', 'Sheet1', 'nope'])), ('g2', STR(['Sheet1', 'Data', 'other'])),
                     ('v', Fork([Prim('real', domain=[2.5, 0.0]), Prim('str', domain=['', 'txt', '#N/A']), Prim('bool'), Prim('int', domain=[0, 7])])),
                     ('text', STR(['=A1+1', '=SUM(B2:C3)'])), ('cached', Fork([Prim('real', domain=[3.5]), Prim('str', domain=['x']), Const(None, 'no cached value')]))],
             requires=read_cells_req, fork='star',
